@@ -695,6 +695,13 @@ func drawProgram(rt *rapid.T, sorted bool) *Program {
 	if rapid.IntRange(0, 5).Draw(rt, "trail") == 0 {
 		p.Trail = rapid.IntRange(1, 3).Draw(rt, "trailbytes")
 	}
+	// a decode of zero bits is the business of C04 (what fq reports as a gap
+	// of an empty input); here the input always has at least one bit
+	w := &bitBuf{}
+	assemble(p.Ops, w)
+	if w.n == 0 && p.Trail == 0 {
+		p.Trail = 1
+	}
 	return p
 }
 
